@@ -19,20 +19,20 @@ RULE = ('Cases: paired FASTQ read sets over a 2k..6k-base genome (read lengths f
         'equals the model sequence of passing windows in read order (Python ntHash); no Bloom false negative; counts '
         'increase by one per Bloom hit; a k-mer is accepted exactly when the count reaches C (C=2: from the second sighting '
         'on).  An extra dictionary entry is excused only by an observed Bloom false positive or an observed 64-bit hash '
-        'collision; a missing entry never.  Builds of 2..20 read-pair samples with --threads 1..8 are compared column by column with the per-sample model.  --min-count auto (k in 15..63, both widths; two samples whose four read files hold the same reads, so that it does not matter which two files the program fits its model on) must use the cutoff `ska cov` reports for those reads, print the same table and obey the counting rule at that count.  A sixth of the cases also build with one file named in both columns (every window counted twice).  Fault injection on the input: a read file with one malformed record (quality string of another length, missing + line) or a gzip stream cut in its middle is either refused (non-zero exit, no .skf) or loses no k-mer that reaches the count among the well-formed records.  Non-trivial: some k-mer is below and some at/above the count, or a quality '
+        'collision; a missing entry never.  Builds of 2..20 read-pair samples with --threads 1..8 are compared column by column with the per-sample model.  --min-count auto (k in 15..63, both widths; two samples whose four read files hold the same reads, so that it does not matter which two files the program fits its model on) must use the cutoff `ska cov` reports for those reads, print the same table and obey the counting rule at that count.  A sixth of the cases also build with one file named in both columns (every window counted twice).  Three to five read builds with different k, count, quality threshold and rule inside one process (library route, harness) are each compared with the model.  Fault injection on the input: a read file with one malformed record (quality string of another length, missing + line) or a gzip stream cut in its middle is either refused (non-zero exit, no .skf) or loses no k-mer that reaches the count among the well-formed records.  Non-trivial: some k-mer is below and some at/above the count, or a quality '
         'equals the threshold; distinct = distinct (parameters, reads).')
 ASSUMPTIONS = ['the exact counter in this file states the specification; quality = ASCII - 33',
                'hooked runs use --threads 1 so that the event order is the read order']
 REQUIRED = {t: ['rule:none', 'rule:middle', 'rule:strict', 'quality_equal_threshold', 'probes_at_C', 'probes_below_C',
                 'probes_above_C', 'filter_calls_monitored', 'accepts_monitored', 'mincount:1', 'mincount:2', 'mincount:3+',
                 'kmers_included', 'kmers_excluded_by_count'] for t in ('quick', 'thorough')}
-REQUIRED['quick'] = REQUIRED['quick'] + ['large_input_distinct_kmers', 'multi_sample_builds', 'multi_sample_parallel_builds', 'damaged_input_refused', 'auto_mincount_builds', 'auto_width64', 'auto_width128', 'same_file_in_both_columns', 'builds_with_default_options']
+REQUIRED['quick'] = REQUIRED['quick'] + ['large_input_distinct_kmers', 'multi_sample_builds', 'multi_sample_parallel_builds', 'damaged_input_refused', 'auto_mincount_builds', 'auto_width64', 'auto_width128', 'same_file_in_both_columns', 'builds_with_default_options', 'inprocess_read_builds_compared']
 REQUIRED['thorough'] = REQUIRED['quick']
 RULES = {'none': 'no-filter', 'middle': 'middle', 'strict': 'strict'}
 
 
 def builds(tier):
-    return ['rel', 'chk']
+    return ['rel', 'chk', 'harness']
 
 
 def plan(tier, seed, rng, scale):
@@ -55,6 +55,8 @@ def plan(tier, seed, rng, scale):
         descs.append({'k': rng.choice([9, 15, 21, 31, 33]), 'rc': rng.random() < 0.7, 'rule': rng.choice(list(RULES)),
                       'minc': rng.randint(1, 4), 'minq': rng.choice([0, 2, 20]), 'seed': rng.getrandbits(32),
                       'damage': ['length-mismatch', 'missing-plus', 'cut-gzip'][i % 3], 'chk': False})
+    for i in range(int((60 if tier == 'quick' else 600) * scale)):
+        descs.append({'k': 0, 'rc': True, 'rule': 'none', 'minc': 0, 'minq': 0, 'seed': rng.getrandbits(32), 'inprocess': True, 'chk': False})
     for i in range(int((16 if tier == 'quick' else 160) * scale)):
         descs.append({'k': [15, 21, 31, 33, 41, 63][i % 6], 'rc': rng.random() < 0.7, 'rule': 'strict', 'minc': 0, 'minq': 20,
                       'seed': rng.getrandbits(32), 'auto': True, 'chk': False})
@@ -361,6 +363,50 @@ def run_auto(desc, ctx, res):
     res.nontrivial.append(fingerprint(['auto', desc['seed']]))
 
 
+def run_inprocess(desc, ctx, res):
+    """Several read builds inside ONE process (library route through the harness), each with its own k, count, quality threshold and
+    rule: whatever a build computes once and keeps (a table derived from --min-qual, a hash seed cache, a filter) must not leak
+    into the next."""
+    rng = random.Random(desc['seed'])
+    jobs, lines = [], []
+    for n in range(rng.randint(3, 5)):
+        d2 = {'k': rng.choice([9, 15, 21, 31, 33]), 'rc': rng.random() < 0.7, 'rule': rng.choice(list(RULES)), 'minc': rng.randint(1, 4),
+              'minq': rng.choice([0, 10, 20, 30]), 'seed': rng.getrandbits(32)}
+        reads, _probes = gen_reads(random.Random(d2['seed']), d2)
+        f0 = ctx.write('ip%d_0.fastq' % n, fastq_text(reads[0]))
+        f1 = ctx.write('ip%d_1.fastq' % n, fastq_text(reads[1]))
+        counts = {}
+        for w in passing_windows(reads[0] + reads[1], d2['k'], d2['rc'], d2['minq'], d2['rule']):
+            counts[w] = counts.get(w, 0) + 1
+        exp = dictionary(counts, d2['k'], d2['rc'], d2['minc'])
+        if not exp:
+            continue
+        jobs.append((d2, exp, len(counts)))
+        lines.append('%d %d %s %s %d %d %s' % (d2['k'], d2['rc'], f0, f1, d2['minc'], d2['minq'], {'none': 'none', 'middle': 'middle', 'strict': 'strict'}[d2['rule']]))
+    if len(jobs) < 2:
+        return
+    ctx.write('multiq.txt', '\n'.join(lines) + '\n')
+    p = ctx.sh(ctx.bins['harness'], 'multik', ctx.path('multiq.txt'))
+    parts = p.stdout.split('== ')[1:]
+    for n, (d2, exp, ndistinct) in enumerate(jobs):
+        res.evals += 1
+        try:
+            hdr, table = M.parse_nk(parts[n].split('\n', 1)[1])
+            got = {a: b[0] for a, b in table.items()}
+        except (ValueError, IndexError):
+            got = None
+        lost = None if got is None else [a for a in exp if a not in got]
+        other = None if got is None else [a for a in got if got[a] != exp.get(a)]
+        if got is None or lost or len(other) > max(1, ndistinct // 1000):
+            res.violate('C12:inprocess', 'read build number %d of one process (k=%d min-count=%d min-qual=%d rule=%s, after %s): %s k-mers that reach the count are missing, %s entries differ%s'
+                        % (n + 1, d2['k'], d2['minc'], d2['minq'], d2['rule'], [(j[0]['minq'], j[0]['rule']) for j in jobs[:n]],
+                           None if lost is None else len(lost), None if other is None else len(other), '' if p.returncode == 0 else ': ' + p.stderr.strip()[-120:]),
+                        {'jobs': [j[0] for j in jobs]})
+            return
+        res.count('inprocess_read_builds_compared')
+    res.nontrivial.append(fingerprint(['inprocess', desc['seed']]))
+
+
 def run_multi(desc, ctx, res):
     """Several read-pair samples in one build (parallel for >= 10 samples and > 1 thread): every column must equal the
     dictionary of its own reads; samples share most of their k-mers, so state leaking from one sample's filter into the
@@ -436,6 +482,9 @@ def run_case(desc, ctx):
         return res
     if desc.get('auto'):
         run_auto(desc, ctx, res)
+        return res
+    if desc.get('inprocess'):
+        run_inprocess(desc, ctx, res)
         return res
     k, rcmode, rule, minc, minq = desc['k'], desc['rc'], desc['rule'], desc['minc'], desc['minq']
     rng = random.Random(desc['seed'])
